@@ -1,6 +1,7 @@
 import Holpy.C10.Model
 import Holpy.C10.PolyModel
 import Holpy.C10.ProofsNatPoly
+import Holpy.C10.ProofsNatClosureNorm
 /-
 C10 — the nat Conv normaliser `data.nat.norm_full` (what `nat_norm` uses) against the polynomial
 model.  Fragment: atoms, numerals, Suc, +, * (truncated subtraction, powers, applications are atoms
@@ -28,17 +29,35 @@ example : toPoly (emb (norm 2 (.mul (.add (.atom 0 1) (.atom 1 1)) (.add (.atom 
 /-- Two terms with the same `norm_full` normal form have the same polynomial (so `nat_norm` never
 proves an equation between different polynomials, independently of the kernel check).
 PARTIAL: the converse -- same polynomial ⇒ same normal form, i.e. canonicity of `norm_full` -- is
-NOT proved.  It needs (i) `isNF (norm t)` for every `t` (closure of `insM`/`insA`/`addP`/`mulM`/
-`polyMono`/`mulP` under the normal-form shape, for which `fastCmp` has to be shown a strict total
-order on monomial bodies) and (ii) that a normal-form tree is determined by its polynomial (the
-bridge: the (body, coefficient) list of a normal-form sum is `insertAdd`-canonical for the body
-order, so the `collect_pairs` theory of ProofsCollect applies).  Until then canonicity of
-`norm_full` is checked on the implementation against the independent evaluator every run. -/
+NOT proved.  With `norm_nf_closed` (the result always has the normal-form shape) what remains is
+INJECTIVITY: two normal-form trees with the same polynomial are the same tree.  Plan: the
+(body, coefficient) list of a normal-form sum is strictly sorted for the body order `fastCmp` (which
+is antisymmetric and `eq` only on identical bodies: `fastCmp_swap`, `fastCmp_eq`; transitivity is still
+to be shown), hence `insertAdd`-canonical, so `canon_ext` of the `collect_pairs` theory applies once
+bodies are put in bijection with the monomials of `toPoly`.  Until then canonicity of `norm_full` is
+checked on the implementation against the independent evaluator every run. -/
 theorem norm_full_eq_poly_partial (one : Nat) (a b : NExp) (h : norm one a = norm one b) :
     toPoly (emb a) = toPoly (emb b) := by
   rw [← norm_full_poly_invariant one a, ← norm_full_poly_invariant one b, h]
 
 example : toPoly (emb (.add (.atom 0 1) (.suc (.atom 1 1)))) = toPoly (emb (.add (.suc (.atom 1 1)) (.atom 0 1))) :=
   norm_full_eq_poly_partial 2 _ _ (by decide)
+
+/-- Closure: whatever the input, the result of `norm_full` has the normal-form shape `isNF` (the
+operations `norm_add_monomial`, `norm_add_polynomial`, `norm_mult_atom`, `norm_mult_monomial`,
+`norm_mult_poly_monomial`, `norm_mult_polynomial` all preserve it). -/
+theorem norm_nf_closed (one : Nat) (t : NExp) : isNF one (norm one t) = true :=
+  norm_isNF one t
+
+example : isNF 2 (norm 2 (.mul (.add (.atom 1 1) (.suc (.atom 0 1))) (.add (.atom 0 1) (.num 3)))) = true :=
+  norm_nf_closed 2 _
+
+/-- Normalising a normal form changes nothing (for every term, not only for given shapes). -/
+theorem norm_idem (one : Nat) (t : NExp) : norm one (norm one t) = norm one t :=
+  norm_norm one t
+
+example : norm 2 (norm 2 (.mul (.add (.atom 1 1) (.atom 0 1)) (.add (.atom 0 1) (.num 3))))
+    = norm 2 (.mul (.add (.atom 1 1) (.atom 0 1)) (.add (.atom 0 1) (.num 3))) :=
+  norm_idem 2 _
 
 end Holpy.C10
